@@ -382,23 +382,79 @@ pub fn run_e2e(args: &Args) {
     crate::run_cases("c09e2e", args, move |i| {
         let mut rng = Rng::for_case(seed, "c09e2e", i);
         let d = gen_e2e(&mut rng);
-        let tmp = build::tmpdir("c09e2e");
-        let ds = write::write_design(tmp.path(), &d);
-        let res = build::compile(&ds, &build::BuildOpts::default());
-        let mut f = vec![d.to_sexp()];
-        match res {
-            Ok(bytes) => {
-                f.push(S::k1("result", S::atom("ok")));
-                match FontRef::new(&bytes) {
-                    Ok(font) => {
-                        f.push(S::k1("names", S::list(dump::names(&font).iter().map(|n| S::str(n)))));
-                        f.push(dump_gpos_kern(&font));
-                    }
-                    Err(e) => f.push(S::k1("unreadable", S::str(&format!("{e}")))),
-                }
-            }
-            Err(e) => f.push(S::kv("result", [S::atom("err"), S::str(&e)])),
-        }
-        f
+        e2e_fields(&d, "c09e2e")
     });
+}
+
+// ------------------------------------------------------------------ directed witnesses (run through the e2e path)
+
+fn tri(x: f64) -> Vec<Vec<design::Pt>> {
+    use design::{Pt, PtType};
+    vec![vec![
+        Pt { x, y: 0.0, typ: PtType::Line },
+        Pt { x: x + 300.0, y: 0.0, typ: PtType::Line },
+        Pt { x: x + 150.0, y: 500.0, typ: PtType::Line },
+    ]]
+}
+
+/// kind 0: the minimal failing source of FontcProps.C09.reconcile_counterexample (glyphs a,b,c; two masters).
+/// kind 1: the same with glyph b listed in two side-2 groups of master 0 (not a valid UFO3: excluded by the property).
+pub fn witness_design(kind: usize) -> design::Design {
+    use design::{AxisDef, Design, GlyphDef, Master};
+    let mut d = Design { family: "Verif Kern Witness".into(), upem: 1000, ..Default::default() };
+    d.axes.push(AxisDef { tag: "wght".into(), name: "Weight".into(), min: 400.0, default: 400.0, max: 900.0, map: vec![] });
+    let names = ["a", "b", "c"];
+    d.glyph_order = Some(names.iter().map(|s| s.to_string()).collect());
+    for (i, n) in names.iter().enumerate() {
+        d.codepoints.insert(n.to_string(), vec![0x61 + i as u32]);
+    }
+    let info: Vec<(String, f64)> = vec![("ascender".into(), 800.0), ("descender".into(), -200.0), ("xHeight".into(), 500.0), ("capHeight".into(), 700.0)];
+    for (mi, w) in [400.0, 900.0].iter().enumerate() {
+        let mut m = Master { name: format!("M{mi}"), style: if mi == 0 { "Regular".into() } else { "Black".into() }, loc: vec![*w], info: info.clone(), ..Default::default() };
+        for (gi, n) in names.iter().enumerate() {
+            m.glyphs.insert(n.to_string(), GlyphDef { advance: 500.0 + 20.0 * mi as f64, contours: tri(50.0 + 10.0 * gi as f64 + 5.0 * mi as f64), ..Default::default() });
+        }
+        d.masters.push(m);
+    }
+    let s = |x: &str| x.to_string();
+    d.masters[0].groups = vec![
+        (s("public.kern1.G0"), vec![s("a")]),
+        (s("public.kern2.H0"), if kind == 1 { vec![s("a"), s("b")] } else { vec![s("a")] }),
+        (s("public.kern2.H1"), vec![s("b"), s("c")]),
+    ];
+    d.masters[0].kerning = vec![
+        (s("public.kern1.G0"), s("public.kern2.H0"), 13.0),
+        (s("public.kern1.G0"), s("public.kern2.H1"), -115.0),
+    ];
+    d.masters[1].groups = vec![
+        (s("public.kern1.G0"), vec![s("a")]),
+        (s("public.kern2.H0"), vec![s("a"), s("b")]),
+    ];
+    d.masters[1].kerning = vec![(s("c"), s("c"), 1.0)];
+    d
+}
+
+fn e2e_fields(d: &design::Design, tag: &str) -> Vec<S> {
+    let tmp = build::tmpdir(tag);
+    let ds = write::write_design(tmp.path(), d);
+    let res = build::compile(&ds, &build::BuildOpts::default());
+    let mut f = vec![d.to_sexp()];
+    match res {
+        Ok(bytes) => {
+            f.push(S::k1("result", S::atom("ok")));
+            match FontRef::new(&bytes) {
+                Ok(font) => {
+                    f.push(S::k1("names", S::list(dump::names(&font).iter().map(|n| S::str(n)))));
+                    f.push(dump_gpos_kern(&font));
+                }
+                Err(e) => f.push(S::k1("unreadable", S::str(&format!("{e}")))),
+            }
+        }
+        Err(e) => f.push(S::kv("result", [S::atom("err"), S::str(&e)])),
+    }
+    f
+}
+
+pub fn run_witness(args: &Args) {
+    crate::run_cases("c09wit", args, move |i| e2e_fields(&witness_design(i % 2), "c09wit"));
 }
